@@ -714,28 +714,34 @@ Theorem clean_stray_safe : forall s n,
   heap (clean_stray s n) = heap s /\ cache (clean_stray s n) = cache s /\
   (forall k v, In (k, v) (parts (clean_stray s n)) -> In (k, v) (parts s)) /\
   (forall k v, In (k, v) (cmps (clean_stray s n)) -> In (k, v) (cmps s)) /\
-  (parts (clean_stray s n) <> parts s ->
+  (parts (clean_stray s n) <> parts s \/ cmps (clean_stray s n) <> cmps s ->
      exists sf, alookup n (parts s) = Some sf /\ sf_old sf = true /\
-       ((0 < cache_state s n /\
+       ((ST_RECEIVED < cache_state s n /\ cache_state s n <> ST_FAILED /\
          match alookup n (cmps s) with None => True | Some c => c_hash c = cache_hash s n end) \/
         log_has s n (match alookup n (cmps s) with Some c => c_hash c | None => [] end) = true)).
 Proof.
   intros s n. unfold clean_stray.
-  destruct (alookup n (parts s)) as [sf|] eqn:L; [|repeat split; auto; congruence].
-  destruct (sf_old sf) eqn:O; simpl; [|repeat split; auto; congruence].
-  destruct (0 <? cache_state s n) eqn:C.
-  - destruct (alookup n (cmps s)) as [c|] eqn:LC.
-    + destruct (name_eqb (c_hash c) (cache_hash s n)) eqn:E; destruct (cache_state s n =? ST_LOGGED);
-        simpl; repeat split; auto; try congruence;
-        try (intros k v Hin; eapply aremove_in; eauto);
-        try (intros _; exists sf; repeat split; auto; left; split; [apply Z.ltb_lt; auto | apply name_eqb_eq; auto]).
-    + simpl. repeat split; auto; try congruence; try (intros k v Hin; eapply aremove_in; eauto).
-      intros _. exists sf. repeat split; auto. left. split; [apply Z.ltb_lt; auto | auto].
+  destruct (alookup n (parts s)) as [sf|] eqn:L; [|repeat split; auto; intros [Hx|Hx]; congruence].
+  destruct (sf_old sf) eqn:O; simpl; [|repeat split; auto; intros [Hx|Hx]; congruence].
+  destruct ((0 <? cache_state s n) && negb (cache_state s n =? ST_FAILED)) eqn:C.
+  - apply andb_true_iff in C as [C1 C2]. apply negb_true_iff in C2.
+    apply Z.ltb_lt in C1. apply Z.eqb_neq in C2.
+    destruct (alookup n (cmps s)) as [c|] eqn:LC.
+    + destruct (name_eqb (c_hash c) (cache_hash s n)) eqn:E.
+      * assert (W : exists sf0, Some sf = Some sf0 /\ sf_old sf0 = true /\
+            ((ST_RECEIVED < cache_state s n /\ cache_state s n <> ST_FAILED /\ c_hash c = cache_hash s n) \/
+             log_has s n (c_hash c) = true)).
+        { exists sf. split; [reflexivity|]. split; [exact O|]. left. repeat split; auto. apply name_eqb_eq. exact E. }
+        destruct (cache_state s n =? ST_LOGGED); cbn [andb]; simpl; repeat split; auto;
+          try (intros k v Hin; eapply aremove_in; eauto); intros _; exact W.
+      * cbn [andb]. simpl. repeat split; auto. intros [Hx|Hx]; congruence.
+    + cbn [andb]. simpl. repeat split; auto; try (intros k v Hin; eapply aremove_in; eauto).
+      intros _. exists sf. repeat split; auto.
   - destruct (log_has s n (match alookup n (cmps s) with Some c => c_hash c | None => [] end)) eqn:G.
     + destruct (alookup n (cmps s)) as [c|]; simpl; repeat split; auto; try congruence;
         try (intros k v Hin; eapply aremove_in; eauto);
         intros _; exists sf; repeat split; auto.
-    + simpl. repeat split; auto; congruence.
+    + simpl. repeat split; auto. intros [Hx|Hx]; congruence.
 Qed.
 
 End Local.
